@@ -526,20 +526,21 @@ def _row_ok(analytic, oname, dterm, thr):
 
 
 def _cj_outer(c, k):
+    """(member-wise form: every key of the approximated Jacobian already visited, i.e. at a position < k of the iteration order)"""
     an, ap, thr = c.locals["analytic_jacobian"], c.locals["approximated_jacobian"], c.old.threshold
-    p = z3.Int("p!co")
-    key = c.seq.keys[p]
-    return [("succeed-iff-every-compared-row-is-close", c.locals["succeed"] == z3.ForAll([p], z3.Implies(z3.And(0 <= p, p < k), _row_ok(an, key, ap.get(key), thr)), patterns=[c.seq.keys[p]]))]
+    o = z3.Const("o!co", TStr.sort())
+    return [("succeed-iff-every-compared-row-is-close",
+             c.locals["succeed"] == z3.ForAll([o], z3.Implies(z3.And(ap.has(o), c.seq.pos[o] < k), _row_ok(an, o, ap.get(o), thr)), patterns=[ap.has(o)]))]
 
 
 def _cj_inner(c, m):
     an, thr = c.locals["analytic_jacobian"], c.old.threshold
     oj = c.locals["output_jacobian"]
     dterm = D1.dt.mk(oj.member, oj.vals, oj.n)
-    q = z3.Int("q!ci")
+    x = z3.Const("x!ci", TStr.sort())
     return [("succeed-iff-before-and-every-compared-block-is-close",
-             c.locals["succeed"] == z3.And(c.pre_locals["succeed"], z3.ForAll([q], z3.Implies(z3.And(0 <= q, q < m), _pair_ok(an, c.locals["output_name"], dterm, c.seq.keys[q], thr)),
-                                                                            patterns=[c.seq.keys[q]])))]
+             c.locals["succeed"] == z3.And(c.pre_locals["succeed"],
+                                           z3.ForAll([x], z3.Implies(z3.And(oj.has(x), c.seq.pos[x] < m), _pair_ok(an, c.locals["output_name"], dterm, x, thr)), patterns=[oj.has(x)])))]
 
 
 @register
